@@ -456,8 +456,8 @@ def shards(tier):
     for ptype in (0, 1):
         for route in routes:
             for f in (('num_ii', 'num_ff') if q else ('num_ii', 'num_ff', 'num_if', 'num_fi')):
-                if ptype == 0 and f in ('num_ff', 'num_fi') and q:
-                    continue
+                if ptype == 0 and f in ('num_ff', 'num_fi'):
+                    continue      # an Integer cannot be declared with a float default; float *values* meet it in num_if
                 for kind in range(4 if f == 'num_ii' else 3):
                     if route == 4 and kind == 3:
                         continue
